@@ -22,22 +22,23 @@ pub mod str_vec;
 pub(crate) fn group_by<P, T, K>(data: &[T], projection: P) -> Vec<(K, Vec<T>)>
 where
     P: Fn(&T) -> K,
-    K: Eq + Hash,
+    K: Eq + Hash + Clone,
     T: Clone,
 {
-    let mut grouping: HashMap<K, Vec<T>> = HashMap::new();
-    data.iter()
-        .fold(&mut grouping, |acc, t| {
-            let key = projection(t);
-            if let Some(vt) = acc.get_mut(&key) {
-                vt.push(t.clone());
-            } else {
-                acc.insert(key, vec![t.clone()]);
-            }
-            acc
-        })
-        .drain()
-        .collect()
+    // Groups are returned in order of the first occurrence of their key to keep results
+    // independent of the per-process hash seed.
+    let mut index_of_key: HashMap<K, usize> = HashMap::new();
+    let mut grouping: Vec<(K, Vec<T>)> = Vec::new();
+    for t in data {
+        let key = projection(t);
+        if let Some(i) = index_of_key.get(&key) {
+            grouping[*i].1.push(t.clone());
+        } else {
+            index_of_key.insert(key.clone(), grouping.len());
+            grouping.push((key, vec![t.clone()]));
+        }
+    }
+    grouping
 }
 
 /// Generates a new unique name avoiding collisions with the names given in the 'exclusions'.
